@@ -382,6 +382,107 @@ class LinkedGen:
                 a, b = b, a
         return out
 
+    def end_op(self, rng, sim, k, others):
+        """an operation that works at an end of slot k (or a bulk operation into it)"""
+        l = sim.s[k]
+        o = f" o={k}" if k else ""
+        c = rng.choice(["remove_last", "remove_last", "remove_first", "add_last", "add_first", "get_last", "get_first", "reverse", "bulk"])
+        if c == "bulk" and not others:
+            c = "remove_last"
+        if c == "remove_last":
+            if l:
+                del l[-1]
+            return [f"remove_last{o}"]
+        if c == "remove_first":
+            if l:
+                del l[0]
+            return [f"remove_first{o}"]
+        if c == "add_last":
+            v = val(rng); l.append(v)
+            return [rng.choice(["add", "add_last"]) + f" {v}{o}"]
+        if c == "add_first":
+            v = val(rng); l.insert(0, v)
+            return [f"add_first {v}{o}"]
+        if c in ("get_last", "get_first"):
+            return [f"{c}{o}"]
+        if c == "reverse":
+            l.reverse()
+            return [f"reverse{o}"]
+        return self.boundary_bulk(rng, sim, k, rng.choice(others))
+
+    def boundary_bulk(self, rng, sim, k, j):
+        """one of the four bulk operations from slot j into slot k, `_at` variants at a boundary position"""
+        l, lj = sim.s[k], sim.s[j]
+        n = len(l)
+        o = f" o={k}" if k else ""
+        kinds = ["add_all", "add_all_at", "add_all_at"] if sim.mix else ["add_all", "add_all_at", "add_all_at", "splice", "splice_at", "splice_at"]
+        c = rng.choice(kinds)
+        if c.startswith("add_all") and n + len(lj) > 64:
+            del l[:]
+            n = 0
+            pre = [f"remove_all{o}"]
+        else:
+            pre = []
+        if c.endswith("_at"):
+            i = rng.choice([x for x in (0, 1, n - 2, n - 1, n - 1, n - 1, n) if x >= 0])
+            ok = lj and (i <= n if self.dbl else i < n)
+            if ok:
+                l[i:i] = list(lj)
+                if c == "splice_at":
+                    del lj[:]
+            return pre + [f"{c} from={j} idx={i}{o}"]
+        l.extend(lj)
+        if c == "splice":
+            del lj[:]
+        return pre + [f"{c} from={j}{o}"]
+
+    def boundary_then_end(self, rng, sim):
+        """a bulk operation, or an indexed insertion/removal at one of the positions {0, 1, size-2, size-1, size},
+        IMMEDIATELY followed by operations at the ends of the same list (remove_last, remove_first, add_last,
+        add_first, get_last, reverse, a second bulk operation); source sizes 1, 2, 3+.  Aimed at derived
+        end-of-list state (cached tail / penultimate node, size) that one path forgets to maintain."""
+        out = []
+        live = sim.live()
+        k = rng.choice(live)
+        l = sim.s[k]
+        o = f" o={k}" if k else ""
+        while len(l) < rng.choice([1, 2, 3, 5]):
+            v = val(rng); l.append(v); out.append(f"add {v}{o}")
+        r = rng.random()
+        if r < 0.65:
+            free = sim.free_slot()
+            others = [x for x in live if x != k]
+            if free is not None and (not others or rng.random() < 0.5):
+                j = free
+                sim.s[j] = []
+                ctor = sim.ctor_for(j)
+                out.append(f"{ctor} o={j}" if j else ctor)
+            else:
+                j = rng.choice(others) if others else None
+            if j is None:
+                return out
+            oj = f" o={j}" if j else ""
+            want = rng.choice([1, 1, 2, 2, 3, 4])
+            while len(sim.s[j]) < want:
+                v = val(rng); sim.s[j].append(v); out.append(f"add {v}{oj}")
+            out += self.boundary_bulk(rng, sim, k, j)
+        else:
+            n = len(l)
+            i = rng.choice([x for x in (0, 1, n - 2, n - 1, n - 1, n) if x >= 0])
+            if rng.random() < 0.5:
+                v = val(rng)
+                if i < n:
+                    l.insert(i, v)
+                out.append(f"add_at {v} idx={i}{o}")
+            else:
+                if i < n:
+                    del l[i]
+                out.append(f"remove_at idx={i}{o}")
+        others = [x for x in sim.live() if x != k]
+        for _ in range(rng.choice([1, 1, 2, 3])):
+            out += self.end_op(rng, sim, k, others)
+        return out
+
     def iter_program(self, rng, sim, k):
         l = sim.s[k]
         o = f" o={k}" if k else ""
@@ -774,6 +875,8 @@ class LinkedGen:
                 new = self.cursor_family(rng, sim) if rng.random() < 0.5 else self.two_list_program(rng, sim)
             elif r > 0.86 and focus != "growth":
                 new = self.bulk_op(rng, sim, reject=(focus == "reject"))
+            elif r > 0.74 and (focus is None or allf):
+                new = self.boundary_then_end(rng, sim)
             elif focus == "fault":
                 # operations that allocate
                 rr = rng.random()
@@ -829,6 +932,21 @@ class LinkedGen:
                         for c in ("add_all_at", "splice_at"):
                             out.append(build(A) + build(B, 1) + [f"{c} from=1 idx={i}", "add_first 9", "add 8", "add 7 o=1", "remove_last",
                                                                  "remove_first o=1", "drop o=1", "reverse", "destroy"])
+            # (b4) boundary operation -> end operation, immediately: every bulk operation (the `_at` ones at the positions
+            # 0, 1, size-2, size-1, size) and every indexed insertion/removal at these positions, followed at once by each
+            # of the end operations and by a second bulk operation; source sizes 1, 2, 3
+            for na in (1, 2, 3, 5):
+                A = [11, 12, 13, 14, 15][:na]
+                pos = sorted(set(x for x in (0, 1, na - 2, na - 1, na) if x >= 0))
+                for nb in (1, 2, 3):
+                    B = [21, 22, 23][:nb]
+                    firsts = ["add_all from=1", "splice from=1"] + [f"{c} from=1 idx={i}" for c in ("add_all_at", "splice_at") for i in pos]
+                    if nb == 1:
+                        firsts += [f"add_at 77 idx={i}" for i in pos] + [f"remove_at idx={i}" for i in pos]
+                    for f1 in firsts:
+                        for e in ("remove_last", "remove_first", "add_last 8", "add_first 9", "get_last", "reverse",
+                                  "add_all from=1", "add_all_at from=1 idx=0", "splice from=1"):
+                            out.append(build(A) + build(B, 1) + [f1, e, "remove_last", "get_last", "add 5", "remove_first", "destroy"])
             # (b2) indexed operation in the middle of the source, bulk operation, refill the source, indexed
             # operation on the source near the old index (and on the destination); then the way back
             pre_ops = lambda i, k: [f"get_at idx={i}", f"replace_at 77 idx={i}", f"remove_at idx={i}", f"add_at 77 idx={i}"] if not k else \
